@@ -330,3 +330,81 @@ def gen_magic_case(rnd):
     else:
         d = bytearray(rnd.getrandbits(8) for _ in range(rnd.randint(0, 20)))
     return "M " + H(bytes(d)), bytes(d)
+
+
+# ----------------------------------------------------------------------------
+# directed cases: the places where the proofs split cases (independent of the seed)
+# ----------------------------------------------------------------------------
+def runs(count, b):
+    """items producing `count` copies of b"""
+    return [("R", count, b)] if count else []
+
+
+def enc_len(n, blk):
+    """length of the toy member for n incompressible bytes, block size blk, checksum ending"""
+    return 1 + n + 2 * ((n + blk - 1) // blk) + 2
+
+
+def directed_istream(bufsz, drv):
+    out = []
+    rnd = random.Random(15)
+    big = "%d:%d" % (bufsz, bufsz)
+    ops = ",".join([big] * 5)
+
+    def add(z, ws="-", o=ops, maxin=0, maxout=0, finbuf=0, kind="directed"):
+        plain, stop, status, part = ref_decode(z)
+        line = "I %s %d %d %d %s %s %s" % (drv, maxin, maxout, finbuf, H(z), ws, o)
+        out.append((line, dict(z=z, plain=plain, part=part, status=status, kind=kind, total=len(plain) + len(part))))
+
+    # plain size exactly BUFSZ-1, BUFSZ, BUFSZ+1: the buffer is full exactly when the member's data ends;
+    # the end marker is consumed by a later call that produces nothing (END with empty hands), then EOF
+    for d in (0, -1, 1):
+        z, p = member(runs(bufsz + d, 0x41), rnd)
+        add(z)
+        # ... and the same stream cut before / inside the end marker: the decoder owes nothing, the buffer is
+        # full or was just handed out -> must be an error, not EOF
+        add(z[:-1] if d >= 0 else z[:-2], kind="trunc")
+        if d == 0:
+            add(z, finbuf=1, ws="1,1,1,1,1,1,1,1,1,1,1,1,1,1,1,1,1,1,1,1,1,1,1,1,1,1,1,1,1,1")
+            add(z[:-2], kind="trunc")
+    # final-run ending longer than the buffer: everything consumed while output is still owed; END comes from a
+    # call without input (at EOF: the finishing call), over two buffers
+    z1, p1 = member([("L", b"xyz")], rnd)
+    z2, p2 = member(runs(bufsz - 3, 0x42), rnd, (65535, 0x43))
+    add(z1 + z2)
+    add(z1 + z2, maxout=65536, finbuf=1)
+    add(z1 + z2[:-1], kind="trunc")          # cut inside the final-run header
+    add(z1 + z2 + z1)                        # another member behind it
+    add(z1 + z2 + b"\xa7", kind="trunc")    # a lone magic byte behind it
+    # member boundary exactly at the buffer boundary, several members, one-byte windows around the boundary
+    za, pa = member(runs(bufsz, 0x44), rnd)
+    zb, pb = member([("L", b"tail")], rnd)
+    add(za + zb, ws=",".join(["1"] * 40))
+    add(za + b"\xa7\x00\x00" + zb)          # an empty member in between
+    add(za + zb + b"\x00", kind="garbage")
+    return out
+
+
+def directed_ostream(bufsz, drv):
+    out = []
+
+    def add(chunks, blk=255, maxin=0, maxout=0, greedy=0, finrun=0):
+        line = "O %s %d %d %d %d %d %s" % (drv, blk, maxin, maxout, greedy, finrun, ";".join(chunks) or "-")
+        out.append((line, dict(plain=b"".join(spec_bytes(c) for c in chunks))))
+
+    # incompressible data whose member is 1, 2, 3 bytes longer than outbuf: when flush_inbuf(true)'s first call
+    # returns, all input is consumed, outbuf is full and the end of the member is still pending
+    # (drain-on-finish with in_size == 0)
+    done = set()
+    for n in range(bufsz - 3000, bufsz + 1):
+        k = enc_len(n, 255) - bufsz
+        if k in (1, 2, 3) and k not in done:
+            done.add(k)
+            add(["P%d:%d" % (n, 1000 + k)])
+    # a full inbuf at flush time (member ~ 2 KiB longer than outbuf), and one byte more (flush_inbuf(false) first)
+    add(["P%d:77" % bufsz])
+    add(["P%d:78" % (bufsz + 1)], maxout=65536)
+    add(["P%d:79" % (bufsz - 1), "H00"], finrun=1)
+    # exactly two inbufs
+    add(["R%d:9" % bufsz, "P%d:80" % bufsz], blk=64)
+    return out
